@@ -129,6 +129,19 @@ theorem recover_scanLike [ScoreLaws S] (ri : RuneInfo) (db : Db) (q : Bytes) :
         (containsB c.commandLower w || containsB c.descriptionLower w))) (ofQ partialScore) db 0
       exact ⟨h1, _, ofQ_nonneg _ (by decide) (by decide), h2⟩
 
+omit [ScoreOps S] in
+theorem incFrom_sublist {i len : Nat} {r r' : List (Nat × S)} (h : IncFrom i len r) (hs : r'.Sublist r) : IncFrom i len r' :=
+  ⟨h.1.sublist (hs.map _), fun x hx => h.2 x (hs.subset hx)⟩
+
+theorem scanLike_sublist [ScoreLaws S] {n : Nat} {r r' : List (Nat × S)} (h : ScanLike n r) (hs : r'.Sublist r) :
+    ScanLike n r' := by
+  obtain ⟨hinc, s, hs0, hall⟩ := h
+  exact ⟨incFrom_sublist hinc hs, s, hs0, fun x hx => hall x (hs.subset hx)⟩
+
+theorem filterResults_scanLike [ScoreLaws S] (T : Tuning S) (db : Db) (o : Opts S) {n : Nat} {r : List (Nat × S)}
+    (h : ScanLike n r) : ScanLike n (filterResults T db o r) :=
+  scanLike_sublist h List.filter_sublist
+
 theorem scanLike_post [ScoreLaws S] {n : Nat} {r : List (Nat × S)} (h : ScanLike n r) (k : Nat) :
     Post n k (r.take k) := by
   obtain ⟨hinc, s, hs, hall⟩ := h
@@ -167,7 +180,7 @@ theorem cliResults_post [ScoreLaws S] (T : Tuning S) (hT : TuningWF T) (db : Db)
     · simp only [Except.ok.injEq] at h; subst h; exact hp0
     · simp only at h
       split at h
-      · have hsl := recover_scanLike (S := S) T.ri db q
+      · have hsl := filterResults_scanLike T db o (recover_scanLike (S := S) T.ri db q)
         have heff : effLimit o = o.limit.toNat := by
           unfold effLimit
           have : ¬ o.limit ≤ 0 := by omega
